@@ -54,10 +54,10 @@ func runCmdWorld(w *simrt.World, orig func()) {
 	// a session world: earlier invocations in the same process (as an SDK user would make them),
 	// then the invocation under observation
 	var sess struct {
-		Prelude   [][]string `json:"prelude"`
-		PreludeWd []string   `json:"prelude_wd"` // per earlier invocation: "" = sdk.InvokeThriftgo, else sdk.RunThriftgoAsSDK(wd, ...)
-		PreludeRemove []string `json:"prelude_remove"` // removed after the earlier invocations (an obstacle that made one of them fail, repaired before the observed one)
-		SdkWd     string     `json:"sdk_wd"`     // not empty: the invocation under observation is sdk.RunThriftgoAsSDK(wd, nil, args...) instead of main()
+		Prelude       [][]string `json:"prelude"`
+		PreludeWd     []string   `json:"prelude_wd"`     // per earlier invocation: "" = sdk.InvokeThriftgo, else sdk.RunThriftgoAsSDK(wd, ...)
+		PreludeRemove []string   `json:"prelude_remove"` // removed after the earlier invocations (an obstacle that made one of them fail, repaired before the observed one)
+		SdkWd         string     `json:"sdk_wd"`         // not empty: the invocation under observation is sdk.RunThriftgoAsSDK(wd, nil, args...) instead of main()
 	}
 	if len(w.Spec.Driver) > 0 {
 		_ = json.Unmarshal(w.Spec.Driver, &sess)
